@@ -1,4 +1,5 @@
 Require Erbium.Props.C08.
+Require Erbium.Props.DnsPipeline.
 Goal True. idtac "@@BEGIN C08_decision". Abort.
 Print Assumptions Erbium.Props.C08.C08_decision.
 Goal True. idtac "@@BEGIN C08_refused_no_match". Abort.
@@ -19,4 +20,26 @@ Goal True. idtac "@@BEGIN C08_dns_gate". Abort.
 Print Assumptions Erbium.Props.C08.C08_dns_gate.
 Goal True. idtac "@@BEGIN C08_default_acls". Abort.
 Print Assumptions Erbium.Props.C08.C08_default_acls.
+Goal True. idtac "@@BEGIN D01_total". Abort.
+Print Assumptions Erbium.Props.DnsPipeline.D01_total.
+Goal True. idtac "@@BEGIN D01_invariant_monotone". Abort.
+Print Assumptions Erbium.Props.DnsPipeline.D01_invariant_monotone.
+Goal True. idtac "@@BEGIN D02_acl". Abort.
+Print Assumptions Erbium.Props.DnsPipeline.D02_acl.
+Goal True. idtac "@@BEGIN D03_forge_nxdomain". Abort.
+Print Assumptions Erbium.Props.DnsPipeline.D03_forge_nxdomain.
+Goal True. idtac "@@BEGIN D03_forward_only". Abort.
+Print Assumptions Erbium.Props.DnsPipeline.D03_forward_only.
+Goal True. idtac "@@BEGIN D04_faithful". Abort.
+Print Assumptions Erbium.Props.DnsPipeline.D04_faithful.
+Goal True. idtac "@@BEGIN D05_hit_or_fetch". Abort.
+Print Assumptions Erbium.Props.DnsPipeline.D05_hit_or_fetch.
+Goal True. idtac "@@BEGIN D06_refused_tokens_bounded". Abort.
+Print Assumptions Erbium.Props.DnsPipeline.D06_refused_tokens_bounded.
+Goal True. idtac "@@BEGIN D06_refused_octets_bounded". Abort.
+Print Assumptions Erbium.Props.DnsPipeline.D06_refused_octets_bounded.
+Goal True. idtac "@@BEGIN D06_covered". Abort.
+Print Assumptions Erbium.Props.DnsPipeline.D06_covered.
+Goal True. idtac "@@BEGIN D04_history". Abort.
+Print Assumptions Erbium.Props.DnsPipeline.D04_history.
 Goal True. idtac "@@END". Abort.
